@@ -71,7 +71,16 @@ def r_layer_views(run, tree):
     lf.check_layer_copies(run, tree)
 
 
-RULES = [r_layer_views, r1, r2, r3, r4_r5, r6, r7, r9]
+def r11_shared(run, tree):
+    run.rule("C03.R11", "what map() builds its geometry from is exact (shared): the origin / window are brought to the unit of the positions by Array.to without a cast back "
+             "(an integer origin in mm on a cm mesh is not truncated); a basis completed from a bare normal is orthonormal for every zero-pattern family of the normal", "D7 folds of Array.to (shared with C02/C08) and of VectorBasis (shared with C18.R2)", "", floor=10)
+    from . import array_folds as af
+    from . import direction_folds as df
+    af.check_to_fold(run, tree)
+    df.check_vector_forms(run, tree)
+
+
+RULES = [r_layer_views, r1, r2, r3, r4_r5, r6, r7, r9, r11_shared]
 
 
 def t_map_space(run, tree):
